@@ -14,8 +14,8 @@
   spanning it) cross, orders the segments spanning each slab by abscissa at the slab's middle, and
   evaluates Φ once per gap.  Where Φ fails it tries to certify that the whole gap trapezoid lies
   within distance δ of the outline: its four corners are within δ of a single outline edge (the
-  δ-neighbourhood of a segment is convex), or, after bisecting the trapezoid along x a bounded
-  number of times, that holds for every piece — the tolerance band the properties allow.
+  δ-neighbourhood of a segment is convex), or, after cutting the trapezoid into four (at the
+  mid-ordinate and along the mid line) a bounded number of times, that holds for every piece — the tolerance band the properties allow.
 
   Written once over `[Scalar α]`: executed on exact rationals (`Model/RatScalar.lean`), reasoned
   about over ordered fields (`Props/Slab.lean`).
@@ -126,18 +126,25 @@ def bandCovers (edges : List (P α × P α)) (d2 : α) (corners : List (P α)) :
 def quadCorners (y0 y1 l0 l1 r0 r1 : α) : List (P α) := [⟨l0, y0⟩, ⟨r0, y0⟩, ⟨l1, y1⟩, ⟨r1, y1⟩]
 
 /-- the trapezoid lies in the tolerance band: its four corners are within `δ` of ONE outline edge
-(the `δ`-neighbourhood of a segment is convex), or — up to `depth` bisections along x — both halves
-do (a long thin trapezoid next to a finely flattened outline is near the outline everywhere
+(the `δ`-neighbourhood of a segment is convex), or — up to `depth` times — each of the four pieces
+obtained by cutting it at the mid-ordinate and along the mid line between the two bounding lines
+does (a long thin trapezoid next to a finely flattened outline is near the outline everywhere
 without being near a single short edge) -/
-def bandRec (edges : List (P α × P α)) (d2 : α) (y0 y1 : α) : Nat → α → α → α → α → Bool
-  | 0, l0, l1, r0, r1 => bandCovers edges d2 (quadCorners y0 y1 l0 l1 r0 r1)
-  | d+1, l0, l1, r0, r1 =>
+def bandRec (edges : List (P α × P α)) (d2 : α) : Nat → α → α → α → α → α → α → Bool
+  | 0, y0, y1, l0, l1, r0, r1 => bandCovers edges d2 (quadCorners y0 y1 l0 l1 r0 r1)
+  | d+1, y0, y1, l0, l1, r0, r1 =>
+    let ym := (y0 + y1) / two
+    let lm := (l0 + l1) / two
+    let rm := (r0 + r1) / two
+    let m0 := (l0 + r0) / two
+    let mm := (lm + rm) / two
+    let m1 := (l1 + r1) / two
     bandCovers edges d2 (quadCorners y0 y1 l0 l1 r0 r1) ||
-      (bandRec edges d2 y0 y1 d l0 l1 ((l0 + r0) / two) ((l1 + r1) / two) &&
-        bandRec edges d2 y0 y1 d ((l0 + r0) / two) ((l1 + r1) / two) r0 r1)
+      (bandRec edges d2 d y0 ym l0 lm m0 mm && bandRec edges d2 d y0 ym m0 mm r0 rm &&
+        bandRec edges d2 d ym y1 lm l1 mm m1 && bandRec edges d2 d ym y1 mm m1 rm r1)
 
-/-- bisection depth of the band test -/
-def bandDepth : Nat := 6
+/-- subdivision depth of the band test -/
+def bandDepth : Nat := 5
 
 /-! ### one slab -/
 
@@ -172,7 +179,7 @@ the mode's formula holds for the counters `w`, `f`, or the whole gap trapezoid i
 def gapOk (m : Mode) (rule : Rule) (edges : List (P α × P α)) (d2 : α) (y0 y1 : α)
     (w : Int) (f : Nat) (l r : Item α) : Bool :=
   m.holds rule w f ||
-    bandRec edges d2 y0 y1 bandDepth (l.xAt y0) (l.xAt y1) (r.xAt y0) (r.xAt y1)
+    bandRec edges d2 bandDepth y0 y1 (l.xAt y0) (l.xAt y1) (r.xAt y0) (r.xAt y1)
 
 /-- evaluate one gap: the failures to record and the number of gaps evaluated -/
 def gapAt (m : Mode) (rule : Rule) (edges : List (P α × P α)) (d2 : α) (y0 y1 ym : α)
